@@ -28,8 +28,8 @@ KEY_PANIC = "limit-offset-sum-negative-panic"
 KEY_ESC = "term-search-misses-json-escaped-host-on-disk"
 SIG_KEYS = {"skip": KEY_SKIP, "esc": KEY_ESC}
 
-ACTIONS_MC = ["DoRec", "DoEnc", "AutoEnc", "DoApp", "DoRotate", "DoClear", "DoConf", "DoRestart", "DoSearch"]
-ACTIONS_GEN = ["rec", "enc", "app", "autoflush", "rotate", "clear", "conf", "restart"]
+ACTIONS_MC = ["DoRec", "DoEnc", "AutoEnc", "DoApp", "DoAppFails", "DoRotate", "DoClear", "DoConf", "DoRestart", "DoSearch"]
+ACTIONS_GEN = ["rec", "enc", "app", "appfail", "autoflush", "autoflushfail", "rotate", "clear", "conf", "restart"]
 
 
 # ------------------------------------------------------------------ classification
@@ -180,7 +180,7 @@ def replay_record(ctx, table, rec):
 
 
 # ------------------------------------------------------------------ direction B
-TRACE_EVS = {"init", "rec", "recn", "flush", "autoflush", "rotate", "clear", "conf", "restart", "search"}
+TRACE_EVS = {"init", "rec", "recn", "flush", "flushfail", "autoflushfail", "autoflush", "rotate", "clear", "conf", "restart", "search"}
 
 
 def run_history(ctx, hist, nrec, mem=None, big=False):
